@@ -12,7 +12,7 @@
    (both inclusions), x_k lies in x0 + K_k and minimises the H-norm error over x0 + K_k (C06_krylov, C06_optimal);
    with tolerance 0 and a budget >= n the run ends with <r,r> = 0 (C06_within_n; via: at most n mutually orthogonal
    vectors with <v,v> <> 0 in F^n, C06_orthogonal_family_bound); the realification used by the harness for complex
-   Hermitian systems (C06_realify_*).  Over an abstract field "<r,r> = 0" is the code's own notion of a zero residual; in
+   Hermitian systems (theorems C06_realify_...).  Over an abstract field "<r,r> = 0" is the code's own notion of a zero residual; in
    an ordered field (Qc, R) it means r = 0, i.e. H x = b (this last step is not formalised).
    "Inputs untouched" holds by construction of the functional model (nothing is written); the run-time side is checked
    by the harness (values and ._version).  Floating-point rounding ("to working precision") is outside the model. *)
@@ -122,7 +122,7 @@ Section Generic.
   Proof.
     intros [Ha Hsc] Hs n Hl b x0 m res h Hb Hx Hr h1 s h2 Hh.
     assert (Hr0 : length (R0 b x0) = n).
-    { unfold cg_init. cbn [sr]. rewrite (length_vsub F _ _ _ _ _ _ _ _ Fth), Hl, Hb. apply Nat.max_id. }
+    { unfold cg_init. cbn [sr]. rewrite length_vsub, Hl, Hb. apply Nat.max_id. }
     exact (cg_krylov F _ _ _ _ _ _ _ _ Fth feqb fltb feqb_spec Hop Ha Hsc tol n Hl Hs _ (R0 b x0) Hr0 b x0 m res h eq_refl Hx Hb eq_refl Hr h1 s h2 Hh).
   Qed.
 
@@ -135,7 +135,7 @@ Section Generic.
   Proof.
     intros [Ha Hsc] Hs Hp n Hl xs b x0 m res h Hb Hx Hr Hxs h1 s h2 Hh.
     assert (Hr0 : length (R0 b x0) = n).
-    { unfold cg_init. cbn [sr]. rewrite (length_vsub F _ _ _ _ _ _ _ _ Fth), Hl, Hb. apply Nat.max_id. }
+    { unfold cg_init. cbn [sr]. rewrite length_vsub, Hl, Hb. apply Nat.max_id. }
     split.
     - exact (cg_iterate_in_krylov F _ _ _ _ _ _ _ _ Fth feqb fltb feqb_spec Hop Ha Hsc tol n Hl Hs _ (R0 b x0) Hr0 b x0 m res h eq_refl Hx Hb eq_refl Hr h1 s h2 Hh).
     - exact (cg_optimal_krylov F _ _ _ _ _ _ _ _ Fth feqb fltb feqb_spec Hop Ha Hsc tol n Hl Hs _ xs fle fle_add_nonneg Hp (R0 b x0) Hr0 b x0 m res h h1 s h2 eq_refl Hx Hb eq_refl Hr Hh Hxs).
@@ -151,7 +151,7 @@ Section Generic.
     pose proof (cg_run_finite F _ _ _ _ _ _ _ _ Fth feqb fltb feqb_spec Hop tol n Hl Hdef b x0 m Hb) as Hfin.
     destruct (RUN b x0 m) as [[y|] h] eqn:Er; [|cbn in Hfin; congruence]. exists y, h. split; [reflexivity|].
     assert (Hr0 : length (R0 b x0) = n).
-    { unfold cg_init. cbn [sr]. rewrite (length_vsub F _ _ _ _ _ _ _ _ Fth), Hl, Hb. apply Nat.max_id. }
+    { unfold cg_init. cbn [sr]. rewrite length_vsub, Hl, Hb. apply Nat.max_id. }
     exact (cg_exact_within_n F _ _ _ _ _ _ _ _ Fth feqb fltb feqb_spec Hop Ha Hsc tol n Hl Hs _ (R0 b x0) Hr0 b x0 m y h Ht Hnm Hb eq_refl Er).
   Qed.
 End Generic.
